@@ -220,6 +220,22 @@ func (t *tracer) addr(a ssa.Value, path []string, load *ssa.UnOp) {
 	case *ssa.IndexAddr:
 		t.addr(x.X, append([]string{"[]"}, path...), load)
 	case *ssa.Alloc:
+		// flow-sensitive when the load instruction is known: only the stores that reach it
+		if load != nil && load.Parent() == x.Parent() {
+			if defs, entry := reachingStores(x, path, load); len(defs) > 0 || entry {
+				for _, d := range defs {
+					if d.whole {
+						t.val(d.st.Val, path)
+					} else {
+						t.val(d.st.Val, path[d.depth:])
+					}
+				}
+				if entry && len(defs) == 0 {
+					t.emit(Origin{Kind: "alloc", Val: x, Path: path})
+				}
+				return
+			}
+		}
 		// every store into this local (whole value or a sub-field matching path)
 		found := false
 		for _, ref := range *x.Referrers() {
@@ -236,6 +252,9 @@ func (t *tracer) addr(a ssa.Value, path []string, load *ssa.UnOp) {
 			case *ssa.IndexAddr:
 				if len(path) > 0 && path[0] == "[]" {
 					t.storesInto(r, path[1:], &found)
+				} else if len(path) == 0 {
+					// a slice/array literal used as a whole (variadic arguments): its elements
+					t.storesInto(r, nil, &found)
 				}
 			}
 		}
@@ -289,6 +308,9 @@ func isTransparentCallee(name string) bool {
 		strings.HasPrefix(name, "github.com/cosmos/cosmos-sdk/types.NewDec"),
 		strings.HasPrefix(name, "github.com/cosmos/cosmos-sdk/types.NewInt"),
 		strings.HasPrefix(name, "github.com/cosmos/cosmos-sdk/types.NewUint"),
+		strings.HasPrefix(name, "github.com/cosmos/cosmos-sdk/types.Zero"),
+		strings.HasPrefix(name, "github.com/cosmos/cosmos-sdk/types.One"),
+		strings.HasPrefix(name, "github.com/cosmos/cosmos-sdk/types.MustNewDec"),
 		strings.HasPrefix(name, "github.com/cosmos/cosmos-sdk/types.Coin."),
 		strings.HasPrefix(name, "github.com/cosmos/cosmos-sdk/types.Coins."),
 		strings.HasPrefix(name, "github.com/cosmos/cosmos-sdk/types.DecCoin"),
@@ -314,10 +336,7 @@ func (p *Prog) DeepOrigins(v ssa.Value) []Origin {
 		for _, o := range p.Origins(v) {
 			switch o.Kind {
 			case "call":
-				name := ""
-				if sc := o.Call.Call.StaticCallee(); sc != nil {
-					name = fullName(sc)
-				}
+				name := calleeFullName(&o.Call.Call)
 				if isTransparentCallee(name) {
 					for _, a := range o.Call.Call.Args {
 						rec(a, depth+1)
@@ -544,4 +563,118 @@ func boolIsField(v ssa.Value, typ, field string, constOther bool) bool {
 		return false
 	}
 	return rec(v) && hit
+}
+
+type reachDef struct {
+	st    *ssa.Store
+	whole bool // store of the whole variable; otherwise a store into the field path prefix
+	depth int  // number of leading path elements consumed by the field store
+}
+
+// storeTarget classifies a store relative to alloc a and access path: whole-variable
+// store, store into exactly the field(s) selected by a prefix of path, or unrelated.
+func storeTarget(st *ssa.Store, a *ssa.Alloc, path []string) (whole bool, depth int, ok bool) {
+	if st.Addr == a {
+		return true, 0, true
+	}
+	// FieldAddr chain rooted at a
+	var chain []string
+	cur := st.Addr
+	for {
+		fa, isFA := cur.(*ssa.FieldAddr)
+		if !isFA {
+			break
+		}
+		chain = append([]string{fieldName(fa.X.Type(), fa.Field)}, chain...)
+		cur = fa.X
+	}
+	if cur != a || len(chain) == 0 {
+		return false, 0, false
+	}
+	if len(chain) > len(path) {
+		return false, 0, false
+	}
+	for i := range chain {
+		if chain[i] != path[i] {
+			return false, 0, false
+		}
+	}
+	return false, len(chain), true
+}
+
+// reachingStores finds, flow-sensitively, the stores into local a (whole, or into the
+// field selected by path) that can reach the load. entry reports that the function entry
+// (zero value) also reaches it. Array/slice element paths are not handled (nil, false).
+func reachingStores(a *ssa.Alloc, path []string, load ssa.Instruction) (defs []reachDef, entry bool) {
+	if len(path) > 0 && path[0] == "[]" {
+		return nil, false
+	}
+	if _, isArr := a.Type().Underlying().(*types.Pointer).Elem().Underlying().(*types.Array); isArr {
+		return nil, false
+	}
+	// if the address escapes to a call (Unmarshal(&x)) we cannot see all writes
+	for _, ref := range *a.Referrers() {
+		if c, ok := ref.(ssa.CallInstruction); ok {
+			for _, arg := range c.Common().Args {
+				if arg == a {
+					return nil, false
+				}
+			}
+		}
+	}
+	seen := map[*ssa.BasicBlock]bool{}
+	var walk func(b *ssa.BasicBlock, from int)
+	walk = func(b *ssa.BasicBlock, from int) {
+		for i := from; i >= 0; i-- {
+			if st, ok := b.Instrs[i].(*ssa.Store); ok {
+				if whole, depth, ok := storeTarget(st, a, path); ok {
+					defs = append(defs, reachDef{st: st, whole: whole, depth: depth})
+					return
+				}
+			}
+		}
+		if len(b.Preds) == 0 {
+			entry = true
+			return
+		}
+		for _, pb := range b.Preds {
+			if seen[pb] {
+				continue
+			}
+			seen[pb] = true
+			walk(pb, len(pb.Instrs)-1)
+		}
+	}
+	blk := load.Block()
+	idx := -1
+	for i, in := range blk.Instrs {
+		if in == load {
+			idx = i
+		}
+	}
+	walk(blk, idx-1)
+	return defs, entry
+}
+
+// calleeFullName names the function a call invokes: the static callee, or, for calls
+// through package-level function variables (sdk.NewInt = math.NewInt style aliases), the
+// variable's qualified name.
+func calleeFullName(cc *ssa.CallCommon) string {
+	if sc := cc.StaticCallee(); sc != nil {
+		return fullName(sc)
+	}
+	if u, ok := cc.Value.(*ssa.UnOp); ok && u.Op == token.MUL {
+		if g, ok := u.X.(*ssa.Global); ok && g.Pkg != nil {
+			return g.Pkg.Pkg.Path() + "." + g.Name()
+		}
+	}
+	return ""
+}
+
+func calleeShortName(cc *ssa.CallCommon) string {
+	n := calleeFullName(cc)
+	if i := strings.LastIndex(n, "."); i >= 0 {
+		return n[i+1:]
+	}
+	return n
 }
